@@ -1,12 +1,12 @@
 #!/bin/sh
-# Offline setup: nothing to fetch.  Verifies the tool chain and parses every spec.
+# Offline setup: nothing to fetch.  Verifies the tool chain and parses the registered specs.
 set -e
 cd "$(dirname "$0")"
 command -v tlc >/dev/null
-/venv/bin/python -c "import stabilize, hypothesis" 
-for f in spec/*.tla; do
-  [ -e "$f" ] || continue
-  ( cd spec && tla-sany "$(basename "$f")" >/dev/null 2>&1 ) || { echo "SANY failed: $f"; ( cd spec && tla-sany "$(basename "$f")" | tail -20 ); exit 1; }
+/venv/bin/python -c "import stabilize, hypothesis"
+for m in $(cat spec/MODULES); do
+  ( cd spec && tla-sany "$m.tla" >/dev/null 2>&1 ) || { echo "SANY failed: $m"; ( cd spec && tla-sany "$m.tla" | tail -20 ); exit 1; }
 done
-python3 -c "import json;json.load(open('MANIFEST.json'))"
+python3 -c "import json;json.load(open('MANIFEST.json'));json.load(open('known_findings.json'))"
+mkdir -p run evidence
 echo setup ok
